@@ -1123,6 +1123,22 @@ fn gen_assets(r: &mut Rng, n_assets: u64, n_pol: u64, big: bool) -> Option<Vec<(
     Some(es)
 }
 const MAINNET_PRICES: [u64; 4] = [577, 10000, 721, 10000000];
+/// ex-unit prices [mem_num, mem_den, step_num, step_den]: mainnet, equal denominators above 1, non-reduced fractions,
+/// prices above 1, zero numerators, random ones (the ex-unit fee is ceil(mem * mem_price + steps * step_price))
+fn gen_prices(r: &mut Rng) -> [u64; 4] {
+    match r.below(10) {
+        0 | 1 | 2 => MAINNET_PRICES,
+        3 => *r.pick(&[[577u64, 10000, 721, 10000], [3, 7, 5, 7], [1, 1000, 1, 1000], [1, 2, 1, 2], [99, 100, 1, 100]]),
+        4 => *r.pick(&[[6u64, 4, 9, 6], [10, 100, 4, 8], [1154, 20000, 1442, 20000000], [7, 7, 0, 3]]),
+        5 => *r.pick(&[[1u64, 1, 1, 1000], [0, 1, 0, 1], [0, 5, 3, 5], [2, 1, 3, 1]]),
+        _ => {
+            let d1 = r.range(1, 1000);
+            let d2 = if r.chance(1, 2) { d1 } else { r.range(1, 100000) };
+            let k = if r.chance(1, 4) { r.range(2, 6) } else { 1 };
+            [r.below(2 * d1) * k, d1 * k, r.below(d2 + 1), d2]
+        }
+    }
+}
 fn gen_cfg(r: &mut Rng) -> Cfg {
     let (a, b) = *r.pick(&[(44u64, 155381u64), (44, 155381), (44, 155381), (44, 155381), (1, 0), (44, 0), (500, 1000), (0, 200000), (1000000, 5)]);
     Cfg { pool: b64(*r.pick(&[500_000_000u64, 0, 1, 2_000_000])), key: b64(*r.pick(&[2_000_000u64, 0, 400_000])),
@@ -1290,7 +1306,7 @@ fn decorate(r: &mut Rng, cfg: &mut Cfg, utxos: &mut Vec<U>, pre: &mut Vec<Op>, f
     }
     if wd_ref.is_some() && cfg.refprice.is_none() && !r.chance(1, 5) { cfg.refprice = Some([15, 1]); }
     if plutus_inputs || plutus_wd {
-        cfg.prices = if r.chance(1, 10) { None } else { Some(*r.pick(&[MAINNET_PRICES, MAINNET_PRICES, [1, 1, 1, 1000], [0, 1, 0, 1]])) };
+        cfg.prices = if r.chance(1, 10) { None } else { Some(gen_prices(r)) };
         if !r.chance(1, 12) { gen_collateral(r, utxos, pre); }
     } else if full && r.chance(1, 8) {
         // collateral without Plutus inputs: the body still carries it and its owner has to sign
